@@ -203,6 +203,17 @@ def _loop_pairwise_checks(ctx, body, subject_pred, strict=False):
 
 
 def run(ctx):
+    # every body of the cone (new helpers included) is inventoried on its own, with its own guards: the walker's
+    # automatic splicing of new helpers into their callers is switched off while this rule set runs
+    saved = mir.Walker.AUTO_INLINE
+    mir.Walker.AUTO_INLINE = False
+    try:
+        return _run(ctx)
+    finally:
+        mir.Walker.AUTO_INLINE = saved
+
+
+def _run(ctx):
     ck = ctx.check
     ck.rule_text = ("instances = every Assert terminator and every may-panic/diverging call on every walked path of every body in the cone; "
                     "one obligation per site key (function|operation|operand signature), plus the R2/R3 structural obligations")
